@@ -63,7 +63,14 @@ def table():
     sw('sum[1d]', lambda x: a.sum(x), numpy.sum, ((3,),))
     for reps in (2, (2,), (1, 2), (2, 1), (2, 1, 2), (1, 1, 1, 2)):          # fewer, as many and more repetitions than dimensions
         sw('tile[%s]' % (reps,), lambda x, reps=reps: a.tile(x, reps), lambda v, reps=reps: numpy.tile(v, reps), ((), (3,), (3, 2)))
-    sw('diag[vec]', lambda x: a.diag(x), numpy.diag, ((3,),)); sw('diag[mat]', lambda x: a.diag(x), numpy.diag, ((3, 3),))
+    sw('diag[vec]', lambda x: a.diag(x), numpy.diag, ((3,),)); sw('diag[mat]', lambda x: a.diag(x), numpy.diag, ((3, 3), (3, 2), (2, 3)))
+    for k_ in (1, -1, 2):
+        sw('diag[vec,k=%d]' % k_, lambda x, k_=k_: a.diag(x, k=k_), lambda v, k_=k_: numpy.diag(v, k=k_), ((3,),))
+        sw('diag[mat,k=%d]' % k_, lambda x, k_=k_: a.diag(x, k=k_), lambda v, k_=k_: numpy.diag(v, k=k_), ((3, 3), (3, 4)))
+    for k_ in (1, -1):
+        sw('triu[k=%d]' % k_, lambda x, k_=k_: a.triu(x, k=k_), lambda v, k_=k_: numpy.triu(v, k=k_), ((3, 3), (3, 2)))
+        sw('tril[k=%d]' % k_, lambda x, k_=k_: a.tril(x, k=k_), lambda v, k_=k_: numpy.tril(v, k=k_), ((3, 3), (2, 3)))
+    sw('reshape[-1]', lambda x: x.reshape((-1,)), lambda v: v.reshape((-1,)), ((3, 2),)); sw('reshape[2,-1]', lambda x: a.reshape(x, (2, -1)), lambda v: v.reshape((2, -1)), ((3, 2),))
     sw('triu', lambda x: a.triu(x), numpy.triu, ((3, 3),)); sw('tril', lambda x: a.tril(x), numpy.tril, ((3, 3),))
     sw('trace', lambda x: a.trace(x), numpy.trace, ((3, 3),))
     sw('neg', lambda x: -x, lambda v: -v, ((3,), (3, 2)))
